@@ -181,4 +181,4 @@ def distributor(ck):
 
 
 if __name__ == '__main__':
-    sys.exit(main())
+    sys.exit(run_main(main))
